@@ -88,8 +88,6 @@ class Built:
     what: str
     header: str                    # 'intact' | 'fault' | 'variant'
     wellformed: Optional[bool]     # expectation for an XML parser; None = not claimed
-    renamed_lexicon: Optional[int] = None   # index of a top-level lexicon renamed away
-    first_lexicon_cut: bool = False         # truncated before the first lexicon tag ends
     info: dict = field(default_factory=dict)
 
 
@@ -366,11 +364,6 @@ def build(resource: dict, style, mutation: dict, literal_ws: bool = False) -> Bu
         b.data = data[:k]
         b.what = f'file cut after byte {k} of {len(data)}'
         # does the cut fall before the end of the first lexicon's start tag?
-        # ('<' is always escaped inside attribute values and the writer's
-        # comments hold no '<Lexicon', so the first hit is the first lexicon)
-        start = data.find(b'<Lexicon', lo)
-        end = _start_tag_end(data, start) if start >= 0 else -1
-        b.first_lexicon_cut = end < 0 or k <= end
         return b
 
     if cls == 'doctype-downgrade':
@@ -394,8 +387,6 @@ def build(resource: dict, style, mutation: dict, literal_ws: bool = False) -> Bu
         name = _unknown_name(el.tag, arg)
         marks[id(el)] = {'open': name}
         b.what = f'<{el.tag}> renamed to <{name}>'
-        if parent is root and el.tag in ('Lexicon', 'LexiconExtension'):
-            b.renamed_lexicon = root.children.index(el)
     elif cls == 'child-duplicated':
         el, parent, i = handle
         at = i + 1 if arg % 2 == 0 else len(parent.children)
@@ -422,21 +413,6 @@ def build(resource: dict, style, mutation: dict, literal_ws: bool = False) -> Bu
         raise MutationError(f'unknown class {cls}')
     b.data = (hdr + serialise(root, style, marks, literal_ws)).encode('utf-8')
     return b
-
-
-def _start_tag_end(data: bytes, start: int) -> int:
-    """Offset of the '>' ending the start tag that begins at *start*."""
-    q = None
-    for i in range(start, len(data)):
-        c = data[i:i + 1]
-        if q:
-            if c == q:
-                q = None
-        elif c in (b'"', b"'"):
-            q = c
-        elif c == b'>':
-            return i
-    return -1
 
 
 def _header(cls: str, hdr: str, version: str, arg: int):
